@@ -10,6 +10,7 @@ from ..viol import Violation, require
 ID = 'C03'
 LEVEL = 'exploration'
 RULE = (
+    'Sandwich: in a manager with an unused variable at each of the 4 levels and all 256 functions of the other three held, every (function, subset, quantifier) is computed, then one perturbation is applied (undeclare the unused variable, declare a new one, swap the top / bottom levels, collect, rooted collect, reorder to the reverse order, sift) and everything is computed again. '
     'S: for the quantification entry points (quantify, exist/forall, apply with a cube and each quantifier alias) every position k of the dynamic-reordering trigger is enumerated as in C09. '
     'H: Hypothesis histories on used managers (collections, re-used node numbers, swaps; dynamic reordering off and on with a lowered threshold) in which quantify / exist / forall / apply-with-cube are interleaved. '
     'E: every function of n<=3 variables x every subset of declared '
@@ -34,7 +35,7 @@ def subsets(n):
     return [[j for j in range(n) if (m >> j) & 1] for m in range(1 << n)]
 
 
-HIST_ALPHA = {'build': 8, 'repeat': 6, 'apply': 3, 'quantify': 16, 'drop': 6, 'gc': 5, 'swap': 3, 'sift': 1, 'reorder_to': 1, 'cube': 2, 'declare': 1, 'undeclare': 4, 'add_var': 1, 'let_rename': 1, 'gc_roots': 1}
+HIST_ALPHA = {'build': 8, 'repeat': 6, 'churn': 1, 'apply': 3, 'quantify': 16, 'drop': 6, 'gc': 5, 'swap': 3, 'sift': 1, 'reorder_to': 1, 'cube': 2, 'declare': 1, 'undeclare': 4, 'add_var': 1, 'let_rename': 1, 'gc_roots': 1}
 
 
 def _hist_nontrivial(w):
@@ -52,6 +53,16 @@ def _hist_plan(tier, seed):
 def plan(tier, seed):
     specs = []
     specs += _hist_plan(tier, seed)
+    # sweep, perturb (undeclare / declare / swap / collect / reorder),
+    # sweep again: results remembered across calls must not survive a
+    # change of levels or node numbers
+    for pi, pert in enumerate(fix.PERTURBATIONS):
+        for pos in range(4):
+            if tier == 'quick' and (pi + pos + seed) % 2:
+                continue
+            specs.append(dict(kind='sandwich', perturbation=pert, pos=pos,
+                              order=fix.orders(3)[(pi + pos) % 6],
+                              seed=seed))
     # schedule enumeration of the reordering trigger (machinery of C09)
     # restricted to the quantification entry points
     for s in range(6 if tier == 'thorough' else 3):
@@ -324,6 +335,9 @@ def run_random(spec, out):
 
 
 def replay_into(case, out):
+    if case.get('kind') == 'sandwich':
+        return run_sandwich({k: case[k] for k in (
+            'kind', 'perturbation', 'pos', 'order', 'seed')}, out)
     if case.get('kind') == 'history':
         return H.replay_into(case, out)
     if case.get('kind') == 'schedule':
@@ -348,7 +362,52 @@ def replay_into(case, out):
     out.count(1, 0)
 
 
+def run_sandwich(spec, out):
+    n = 3
+    nm = fix.names(n)
+    b, refs = fix.sandwich_manager(spec['order'], nm, spec['pos'])
+    base = {k: spec[k] for k in ('kind', 'perturbation', 'pos', 'order',
+                                 'seed')}
+    subs = subsets(n)
+    cnt = nt = 0
+
+    def sweep(phase):
+        nonlocal cnt, nt
+        den = Den(b, nm + ('zz', 'zz_new'))
+        F4 = tt.full(5)
+        for t in range(256):
+            for js in subs:
+                for fa in (False, True):
+                    case = dict(base, phase=phase, t=t, js=js, forall=fa)
+
+                    def body():
+                        r = b.quantify(refs[t], {nm[j] for j in js},
+                                       forall=fa)
+                        want = (tt.forall if fa else tt.exists)(t, n, js)
+                        got = den(r)
+                        require(got == tt.widen(want, n, 5),
+                                'quantify.wrong_after_perturbation',
+                                dict(got=got, want=want))
+                    out.guard(case, body)
+                    cnt += 1
+                    if js and t not in (0, 255):
+                        nt += 1
+    sweep('before')
+    ok = out.guard(dict(base, phase='perturb'),
+                   lambda: fix.perturb(b, spec['perturbation']))
+    if ok:
+        sweep('after')
+        from .. import inv
+        out.guard(dict(base, phase='structure'),
+                  lambda: inv.check_structure(b))
+    out.count(cnt, nt)
+    out.sample(dict(base, t=0x6a, js=[1], forall=False))
+    out.exhaustive = True
+
+
 def run(spec, out):
+    if spec['kind'] == 'sandwich':
+        return run_sandwich(spec, out)
     if spec['kind'] == 'schedule':
         from . import c09
         return c09.run_schedule(spec, out)
